@@ -1,0 +1,17 @@
+//go:build verif
+
+package instrument
+
+// Contracts for the deductive verifier in /verif (comment-only).
+
+//@ func (*call).Exec
+//@   property C10
+//@   emits
+//@   requires c != nil && c.timing != nil && c.err != nil && c.success != nil && f != nil
+//@   ensures @four_events len(calls) == old(len(calls)) + 4 && (forall j int :: 0 <= j && j < old(len(calls)) ==> calls[j] == old(calls[j]))
+//@   ensures @start calls[old(len(calls))] == ev(tally.Timer.Start, c.timing)
+//@   ensures @f_once calls[old(len(calls)) + 1] == evn("fn.call", f)
+//@   ensures @stop calls[old(len(calls)) + 2] == ev(tally.StopwatchRecorder.RecordStopwatch, iface2(res1(old(len(calls))), res2(old(len(calls)))), res0(old(len(calls))))
+//@   ensures @error_returned_unchanged result.tag == res0(old(len(calls)) + 1) && result.pay == res1(old(len(calls)) + 1)
+//@   ensures @err_counter result != nil ==> calls[old(len(calls)) + 3] == ev(tally.Counter.Inc, c.err, 1)
+//@   ensures @success_counter result == nil ==> calls[old(len(calls)) + 3] == ev(tally.Counter.Inc, c.success, 1)
